@@ -77,8 +77,43 @@ func runC08(c *an.Ctx) {
 	if !c.Need(refill != nil, "last-child refill helper (function of package trickle whose child-adding loop counts from an int parameter up to depthRepeat)") {
 		return
 	}
+	// The loop may have been extracted into a helper of its own (top-up function); the refill role belongs to the
+	// outermost function that hands one of its own parameters through unchanged as the loop's start value.
+	tgraph := an.XBLocalGraph(tfns)
+	topUp, topUpParam := refill, refillParam
+	for hops := 0; hops < 3; hops++ {
+		var caller *ssa.Function
+		cidx := -1
+		okClimb := true
+		for _, call := range tgraph.Callers[refill] {
+			f := call.Parent()
+			if f == refill {
+				continue
+			}
+			args := call.Common().Args
+			if refillParam >= len(args) {
+				okClimb = false
+				break
+			}
+			par, isPar := args[refillParam].(*ssa.Parameter)
+			if !isPar || (caller != nil && caller != f) {
+				okClimb = false
+				break
+			}
+			caller = f
+			for i, q := range f.Params {
+				if q == par {
+					cidx = i
+				}
+			}
+		}
+		if !okClimb || caller == nil || cidx < 0 {
+			break
+		}
+		refill, refillParam = caller, cidx
+	}
 	// append path: functions of package trickle that (transitively) call the refill helper, plus the helper
-	inPath := map[*ssa.Function]bool{refill: true}
+	inPath := map[*ssa.Function]bool{refill: true, topUp: true}
 	for changed := true; changed; {
 		changed = false
 		for _, fn := range tfns {
@@ -93,13 +128,28 @@ func runC08(c *an.Ctx) {
 			}
 		}
 	}
+	// ... and the package-local helpers those functions call (a block of the append path moved into a helper stays in scope)
+	for changed := true; changed; {
+		changed = false
+		for _, fn := range tfns {
+			if !inPath[fn] {
+				continue
+			}
+			for _, call := range an.AllCalls(fn) {
+				if g := an.Callee(call).Static; g != nil && tgraph.In[g] && !inPath[g] {
+					inPath[g] = true
+					changed = true
+				}
+			}
+		}
+	}
 	var path []*ssa.Function
 	for _, fn := range tfns {
 		if inPath[fn] {
 			path = append(path, fn)
 		}
 	}
-	c.Min("append-path functions (callers of the refill helper + helper)", len(path), 3)
+	c.Min("append-path functions (callers of the refill helper + helper)", len(path), 1)
 	only := func(fn *ssa.Function) bool { return inPath[fn] }
 
 	// ---- O1: shared coupling rule on the helpers the append path relies on, plus replace-last-child
@@ -182,8 +232,31 @@ func runC08(c *an.Ctx) {
 	for _, fn := range path {
 		nAdd += len(an.Calls(fn, addChild))
 	}
-	c.Min("O2 AddChild calls in the append path", nAdd, 4)
+	c.Min("O2 AddChild calls in the append path", nAdd, 1)
 
+	// feedsDepth: the value reaches the depth argument of the layer-filling function, directly or through parameters
+	// of package-local helpers
+	var feedsDepth func(v ssa.Value, d int) bool
+	feedsDepth = func(v ssa.Value, d int) bool {
+		for _, u := range an.Uses(v) {
+			call, ok := u.(ssa.CallInstruction)
+			if !ok {
+				continue
+			}
+			g := an.Callee(call).Static
+			if g == fillRec {
+				return true
+			}
+			if g != nil && tgraph.In[g] && d < 2 {
+				for i, a := range call.Common().Args {
+					if i < len(g.Params) && (a == v || an.XBPhiClosure(v)[a]) && feedsDepth(g.Params[i], d+1) {
+						return true
+					}
+				}
+			}
+		}
+		return false
+	}
 	// ---- O3: layer counter advanced only where the refill completed the layer
 	nO3 := 0
 	for _, fn := range path {
@@ -231,12 +304,7 @@ func runC08(c *an.Ctx) {
 					}
 				}
 				// does it feed the depth argument of a layer-filling call?
-				feeds := false
-				for _, u := range an.Uses(inc) {
-					if call, ok := u.(ssa.CallInstruction); ok && an.Callee(call).Static == fillRec {
-						feeds = true
-					}
-				}
+				feeds := feedsDepth(inc, 0)
 				if !feeds {
 					return
 				}
@@ -250,7 +318,7 @@ func runC08(c *an.Ctx) {
 				fmt.Sprintf("after %s(...) the layer counter feeding the continuation loop is incremented (%v) on a path where the repeat argument may be 0; the callee completes the current layer only when repeat != 0, so a layer is skipped and later children are built deeper than their position allows (VerifyTrickleDagStructure: child dag was too deep)", refill.Name(), bad))
 		}
 	}
-	c.Min("O3 calls of the refill helper", nO3, 2)
+	c.Min("O3 calls of the refill helper", nO3, 1)
 
 	// ---- O3b: the refill helper finishes the partially filled layer before it reports success.
 	// Its callers advance the layer counter whenever repeat != 0, so a success return that skips the top-up loop
@@ -311,11 +379,23 @@ func runC08(c *an.Ctx) {
 			k, isK := an.XBInt64(r.Y)
 			return isK && r.X == ssa.Value(par) && ((k == 0 && (r.Op == token.NEQ || r.Op == token.GTR)) || (k == 1 && r.Op == token.GEQ))
 		})
-		for _, call := range an.Calls(fn, addChild) {
+		_ = nz
+		for _, call := range an.Calls(topUp, addChild) {
 			if !an.XBInCycle(call.Block()) {
 				continue
 			}
-			c.Check(len(nz) > 0 && an.GuardedBy(fn, nil, call, nz), "O3", "R-DOM", an.FuncName(fn), "top-up-loop<=repeat!=0", call.Pos(),
+			okNZ := tgraph.HeldUpV(topUp, call, ssa.Value(topUp.Params[topUpParam]), func(f *ssa.Function, at ssa.Instruction, v ssa.Value) bool {
+				if v == nil {
+					return false
+				}
+				al := an.Aliases(v)
+				e := an.XBEdgesWhere(f, func(r an.XBRel) bool {
+					k, isK := an.XBInt64(r.Y)
+					return isK && al[r.X] && ((k == 0 && (r.Op == token.NEQ || r.Op == token.GTR)) || (k == 1 && r.Op == token.GEQ))
+				})
+				return len(e) > 0 && an.GuardedBy(f, nil, at, e)
+			}, 3)
+			c.Check(okNZ, "O3", "R-DOM", an.FuncName(topUp), "top-up-loop<=repeat!=0", call.Pos(),
 				"the top-up loop runs only where repeat != 0", "the refill helper tops the layer up even when repeat == 0: the callers fill that (empty) layer themselves, so it receives twice depthRepeat sub-trees and every later sub-tree sits in the wrong layer")
 		}
 		nRet := 0
@@ -324,11 +404,19 @@ func runC08(c *an.Ctx) {
 				continue
 			}
 			nRet++
-			c.Check(!an.Reaches(fn, nil, r, cut, nil), "O3", "R-POST", an.FuncName(fn), "success-return<=layer-topped-up", r.Pos(),
+			ran := map[ssa.Instruction]bool{}
+			if topUp != fn {
+				for _, call := range an.AllCalls(fn) {
+					if an.Callee(call).Static == topUp {
+						ran[call] = true
+					}
+				}
+			}
+			c.Check(!an.Reaches(fn, nil, r, cut, ran), "O3", "R-POST", an.FuncName(fn), "success-return<=layer-topped-up", r.Pos(),
 				"success is reported only after the top-up loop ran, or where repeat == 0 / there are no sub-trees / the input is exhausted",
 				"the refill helper can return success with repeat != 0 and data left without running the loop that completes the current layer: its callers then move on to the next layer, so the remaining slots of this layer receive sub-trees built for a deeper layer (child dag was too deep)")
 		}
-		c.Min("O3 success returns of the refill helper", nRet, 2)
+		c.Min("O3 success returns of the refill helper", nRet, 1)
 	}
 
 	// ---- O1c: the exported Append consumes the whole stream, and nodes are committed after their last change
@@ -341,7 +429,7 @@ func runC08(c *an.Ctx) {
 		c.Check(ok, "O1", "R-DOM", an.FuncName(app), "success-return<=builder-drained", pos,
 			"Append returns success only where db.Done() was tested true", "Append can return success while the splitter may still hold data: appended bytes are silently dropped")
 	}
-	c.Min("O1 Commit() calls in the append path", c07CommitAfterMutations(c, path, only), 3)
+	c.Min("O1 Commit() calls in the append path", c07CommitAfterMutations(c, path, only), 1)
 
 	// ---- O4: constants and layer arguments
 	info := p.Func(c07Tr, "", "trickleDepthInfo")
@@ -393,7 +481,7 @@ func runC08(c *an.Ctx) {
 				c.Check(ok, "O4", "R-FLOW", an.FuncName(fn), "trickleDepthInfo(_,db.Maxlinks())", call.Pos(), "depth inference uses the builder's Maxlinks()", "trickleDepthInfo is called with a width that is not db.Maxlinks(): depth inference and layer filling use different widths")
 			}
 		}
-		c.Min("O4 trickleDepthInfo calls", nCall, 2)
+		c.Min("O4 trickleDepthInfo calls", nCall, 1)
 	}
 	// layer-filling loops: fillTrickleRec(db, <fresh node>, <loop layer counter>) inside a depthRepeat-bounded loop
 	nFill := 0
@@ -425,7 +513,7 @@ func runC08(c *an.Ctx) {
 				"the depth given to fillTrickleRec is the layer counter, not the repeat counter", "fillTrickleRec receives the repeat counter as maximum depth: sub-DAG depth varies inside one layer")
 		}
 	}
-	c.Min("O4 layer-filling calls of fillTrickleRec inside loops", nFill, 4)
+	c.Min("O4 layer-filling calls of fillTrickleRec inside loops", nFill, 1)
 
 	// ---- advisory: clone disagreement between the callers of the refill helper
 	var shapes []string
